@@ -237,6 +237,19 @@ def gen_prim(rng, f, p, big=False):
     raise ValueError(p)
 
 
+LONG_VEC = {"n": None, "used": False}
+
+
+def gen_long_vec_value(rng, s, n):
+    """a canonical value of s in which the first repeated field met has exactly n elements (None if s has no repeated field)"""
+    LONG_VEC["n"], LONG_VEC["used"] = n, False
+    try:
+        v, b = gen_struct_value(rng, s)
+        return (v, b) if LONG_VEC["used"] else None
+    finally:
+        LONG_VEC["n"], LONG_VEC["used"] = None, False
+
+
 def gen_ty(rng, f, ty, depth, big):
     k = ty["k"]
     if k == "prim":
@@ -249,6 +262,10 @@ def gen_ty(rng, f, ty, depth, big):
         return ("some", gen_ty(rng, f, ty["t"], depth, big))
     if k == "vec":
         n = rng.choice([0, 1, 1, 2, 3, 4] if not big else [0, 1, 2, 9])
+        if LONG_VEC["n"] is not None and not LONG_VEC["used"]:
+            # ONE repeated field of the value gets exactly this many elements (the element count is carried by no length field:
+            # nothing but the count itself can show a limit on it)
+            n, LONG_VEC["used"] = LONG_VEC["n"], True
         out = []
         for _ in range(n):
             for _try in range(8):
